@@ -224,7 +224,8 @@ def exec_random(case):
 def equiv_cases(draw):
     c = draw(R.row_tensor_cases(degenerate_bias=False, qtypes=("qint4",)))
     c["dtype"] = "fp16"
-    c["shape"] = [4 * draw(st.integers(1, 4)), 128 * draw(st.integers(1, 3))]
+    # (up to eight groups per row: with N == K / 128 the per-group scale matrix is SQUARE -- a 4- or 8-way router on a 512 / 1024 hidden size)
+    c["shape"] = [4 * draw(st.integers(1, 4)), 128 * draw(st.sampled_from([1, 2, 3, 4, 4, 8, 8]))]
     c["axis"] = 0
     c["group_size"] = 128
     c["grouped_input"] = draw(st.booleans())
